@@ -384,3 +384,23 @@ Theorem C20_cwnd_no_int64_wrap : forall s, InvC s -> mds s < 2^40 ->
   0 <= reno_cut (cwnd s) <= cwnd s /\ cc_maxCongestionWindowPackets * mds s + mds s < 2^63.
 Proof. exact cwnd_no_int64_wrap. Qed.
 Print Assumptions C20_cwnd_no_int64_wrap.
+
+(** The connection's send path (connection.go triggerSending / sendPackets / sendPacketsWithoutGSO /
+    resetPacingDeadline; model tied by unit "paceglue" on a constructed Conn with the real handler):
+    for every stream of SendMode answers, the packets released by one triggerSending number at most
+    the "any" answers (each packet is licensed by an answer asked right before it) and at most the data
+    available; and a pacing-limited first answer sends nothing and arms the pacing deadline (never 0). *)
+Theorem C20_trigger_sending_gated : forall avail hr modes tus,
+  let r := trigger_sending avail hr modes tus in
+  pr_sent r <= count_any modes /\ pr_sent r <= Z.max avail 0 /\
+  (pr_deadline r = 0 \/ pr_deadline r = pg_deadlineSendImmediately \/ pr_deadline r = pace_deadline tus) /\
+  (forall rest, modes = sm_SendPacingLimited :: rest -> pr_sent r = 0 /\ pr_deadline r = pace_deadline tus /\ pr_deadline r <> 0).
+Proof. exact trigger_sending_gated. Qed.
+Print Assumptions C20_trigger_sending_gated.
+
+Example C20_trigger_sending_nonvacuous :
+  let r := trigger_sending 40 false [6;6;6;6;6;6;6;6;6;6;5] 541066375 in
+  pr_sent r = 10 /\ pr_deadline r = 541066375 /\ pr_rest r = [] /\
+  pr_sent (trigger_sending 3 true [6;6] (-1)) = 1 /\ pr_deadline (trigger_sending 3 true [6;6] (-1)) = pg_deadlineSendImmediately.
+Proof. exact trigger_sending_example. Qed.
+Print Assumptions C20_trigger_sending_nonvacuous.
